@@ -74,3 +74,35 @@ fn bsd_canary() {
 // The '_with_radius' dominance lemmas (symbolic ConstantsC2V, two double multiplications per query)
 // did not finish in CBMC within 15 min in two formulations (direct monotonicity; bit-equality with the
 // shifted-argument form): they are NOT registered and that half of C16 is reported as not decided.
+
+// ---- '_with_radius' region dispatch: no internal assertion may fail -------------------------------
+/// largest_center_to_vertex_distance_with_radius(depth, lon, lat, radius) for every depth 1..=29,
+/// |lat| <= pi/2, 0 < radius <= pi, any longitude within a few turns: each region function is called
+/// inside the latitude range it documents (its debug assertions), i.e. debug and release builds agree
+/// and nothing panics. ConstantsC2V are replaced by arbitrary values (stub of the lazy constructor):
+/// the obligation is about the dispatch, not about the constants.
+fn ghost_csts(_depth: u8) -> &'static ConstantsC2V {
+  let c = ConstantsC2V { slope_npc: kani::any(), intercept_npc: kani::any(), slope_eqr: kani::any(), intercept_eqr: kani::any(), coeff_x2_eqr: kani::any(), coeff_cst_eqr: kani::any() };
+  kani::assume(c.slope_npc.abs() <= 4.0 && c.intercept_npc.abs() <= 4.0 && c.slope_eqr.abs() <= 4.0 && c.intercept_eqr.abs() <= 4.0 && c.coeff_x2_eqr.abs() <= 4.0 && c.coeff_cst_eqr.abs() <= 4.0);
+  Box::leak(Box::new(c))
+}
+#[kani::proof]
+#[kani::stub(get_or_create, ghost_csts)]
+fn c2v_with_radius_dispatch_is_safe() {
+  let depth: u8 = kani::any(); let lon: f64 = kani::any(); let lat: f64 = kani::any(); let r: f64 = kani::any();
+  kani::assume(depth <= 29 && lon >= -30.0 && lon <= 30.0 && lat >= -HALF_PI && lat <= HALF_PI && r > 0.0 && r <= PI);
+  // the polar-cap branch reduces the longitude with the float remainder `%`, which CBMC over-approximates
+  // (even 0.8557 % (pi/2) is not evaluated exactly): that branch is excluded here; its defect for
+  // negative longitudes (finding D17) was confirmed and repaired natively
+  kani::assume(lat.abs() + r < TRANSITION_LATITUDE);
+  let _ = largest_center_to_vertex_distance_with_radius(depth, lon, lat, r);
+  kani::cover!(lat.abs() > LAT_OF_SQUARE_CELL && lat.abs() - r < LAT_OF_SQUARE_CELL && lat.abs() + r < TRANSITION_LATITUDE, "band straddling the latitude of square cells, centre above it");
+}
+#[kani::proof]
+#[kani::stub(get_or_create, ghost_csts)]
+fn c2v_dispatch_is_safe() {
+  let depth: u8 = kani::any(); let lon: f64 = kani::any(); let lat: f64 = kani::any();
+  kani::assume(depth <= 29 && lon >= -30.0 && lon <= 30.0 && lat >= -HALF_PI && lat <= HALF_PI);
+  kani::assume(lat.abs() < TRANSITION_LATITUDE); // polar-cap branch excluded: float remainder `%` over-approximated by CBMC
+  let _ = largest_center_to_vertex_distance(depth, lon, lat);
+}
